@@ -216,6 +216,46 @@ func runC20(c *core.Ctx) {
 	if !errors.Is(got, e) {
 		c.Violate("is-origin", "the received error is not recognized as the handler's error", t.String())
 	}
+	// the two interceptors composed as plain functions, with the request context in three states when
+	// the handler returns: live, cancelled, past its deadline. What the handler returned is what the
+	// server interceptor must put on the wire, whatever has become of the context.
+	if c.Case%4 == 2 {
+		mk := []func() (context.Context, context.CancelFunc){
+			func() (context.Context, context.CancelFunc) { return context.WithCancel(context.Background()) },
+			func() (context.Context, context.CancelFunc) {
+				x, cancel := context.WithCancel(context.Background())
+				cancel()
+				return x, cancel
+			},
+			func() (context.Context, context.CancelFunc) { return context.WithDeadline(context.Background(), time.Unix(1, 0)) },
+		}
+		names := []string{"live", "cancelled", "deadline-exceeded"}
+		k := (c.Case / 4) % 3
+		sctx, scancel := mk[k]()
+		var fn error
+		if p := core.Try(func() {
+			_, serr := middleware.UnaryServerInterceptor(sctx, &egrpc.EchoRequest{Text: key}, &grpc.UnaryServerInfo{FullMethod: "/Echoer/Echo"},
+				func(context.Context, interface{}) (interface{}, error) { return nil, e })
+			fn = middleware.UnaryClientInterceptor(context.Background(), "/Echoer/Echo", nil, nil, nil,
+				func(context.Context, string, interface{}, interface{}, *grpc.ClientConn, ...grpc.CallOption) error { return serr })
+		}); p != nil {
+			c.Violate("function-level/panic", "the interceptors panicked when composed as functions", fmt.Sprintf("%s\ncontext %s: %v", t, names[k], p))
+		} else if fn == nil {
+			c.Violate("function-level/nil", "the handler's error is lost", fmt.Sprintf("%s\ncontext %s", t, names[k]))
+		} else if p := core.Try(func() {
+			c.Count("function-level-compositions", 1)
+			c.Cover("server-context-at-return", names[k])
+			fobs := obs.Full(fn)
+			if diff := obs.DiffRec(gobs, fobs, nil); len(diff) > 0 {
+				kk := diff[0]
+				c.Violate("function-level/"+names[k]+"/"+recKeyClass(kk), "the error delivered by the interceptors composed as functions differs from the one delivered over the wire",
+					fmt.Sprintf("%s\nfield %s:\n wire: %s\n func: %s", t, kk, trimS(gobs[kk], 1200), trimS(fobs[kk], 1200)))
+			}
+		}); p != nil {
+			c.Violate("function-level/panic", "observation panicked", fmt.Sprintf("%s\n%v", t, p))
+		}
+		scancel()
+	}
 	// the same error relayed by a forwarding service (server interceptor -> plain client -> server
 	// interceptor): a status error passes through the second interceptor unchanged, so the
 	// intercepting client at the far end receives what the one next to the origin receives
